@@ -4,8 +4,8 @@
    theorems of Props/C18.v hold of the generated code by rewriting.  An edit of the Python source
    changes Gen/Sim.v and breaks these proofs. *)
 From Coq Require Import QArith ZArith List Bool Arith Permutation.
-From DV Require Import Model.C18Model Model.C18Prims Model.C18MeanModel Gen.Sim.
-From DV Require Import Proofs.C18Lists Proofs.C18Tree Proofs.C18Monad Proofs.C18BD Proofs.C18PB Proofs.C18Coal Proofs.C18GenCoal Proofs.C18GenBD Proofs.C18GenPB Proofs.C18GenTaxa Proofs.C18GenPrune Proofs.C18GenPruneEq Proofs.C18CC Proofs.C18GenCC Proofs.C18FBD Proofs.C18GenFBD Proofs.C18GenMean.
+From DV Require Import Model.C18Model Model.C18Prims Model.C18MeanModel Model.C18DiscPrims Model.C18DiscModel Gen.Sim.
+From DV Require Import Proofs.C18Lists Proofs.C18Tree Proofs.C18Monad Proofs.C18BD Proofs.C18PB Proofs.C18Coal Proofs.C18GenCoal Proofs.C18GenBD Proofs.C18GenPB Proofs.C18GenTaxa Proofs.C18GenPrune Proofs.C18GenPruneEq Proofs.C18CC Proofs.C18GenCC Proofs.C18FBD Proofs.C18GenFBD Proofs.C18GenMean Proofs.C18Disc Proofs.C18GenDisc.
 From DV Require Model.PyPrims.
 Import ListNotations.
 Open Scope nat_scope.
@@ -299,3 +299,118 @@ Theorem gen_repaired_sites :
   fact_contained_gene_taxa_sorted_by_accession = true.
 Proof. exact gen_repaired_sites_facts. Qed.
 Print Assumptions gen_repaired_sites.
+
+(* ------------------------------------------------------------------------------------------------
+   model/birthdeath.py: discrete_birth_death_tree (whole function).  The options ntax= / max_time=
+   are parameters (None = not passed), repeat_until_success= and rng= are passed, once with and once
+   without taxon_namespace=.  The generated code IS the model Model/C18DiscModel.v; the theorems below
+   are about the generated code (gen_disc selects the variant).  Tree.randomly_assign_taxa (another
+   file) is the hand-written primitive py_randomly_assign_taxa of Model/C18DiscPrims.v.
+   ------------------------------------------------------------------------------------------------ *)
+Theorem gen_discrete_birth_death_tree_is_model : forall (P : dparams) (r : rs),
+  (forall ns, gen_discrete_birth_death_tree_ns (dp_b P) (dp_d P) (dp_sb P) (dp_sd P) ns (dp_repeat P) (dp_ntax P) (dp_maxt P) r
+              = disc_run P (Some ns) r) /\
+  gen_discrete_birth_death_tree (dp_b P) (dp_d P) (dp_sb P) (dp_sd P) (dp_repeat P) (dp_ntax P) (dp_maxt P) r
+  = disc_run P None r.
+Proof. intros P r. split; [intros ns; apply gen_disc_ns_eq|apply gen_disc_eq]. Qed.
+Print Assumptions gen_discrete_birth_death_tree_is_model.
+
+(* the body of `for nd in leaf_nodes` and one pass of the generation loop are the model's *)
+Theorem gen_discrete_bd_loop_bodies_are_model : forall (P : dparams) (tt tg : option nat),
+  gen_discrete_birth_death_tree_forM1 (dp_b P) (dp_d P) (dp_sb P) (dp_sd P) (dp_repeat P) = disc_leaf P /\
+  gen_discrete_birth_death_tree_ns_forM1 (dp_b P) (dp_d P) (dp_sb P) (dp_sd P) (dp_repeat P) = disc_leaf P /\
+  gen_discrete_birth_death_tree_while2 (dp_b P) (dp_d P) (dp_sb P) (dp_sd P) tt tg (dp_repeat P) = disc_gen P tt tg /\
+  gen_discrete_birth_death_tree_ns_while2 (dp_b P) (dp_d P) (dp_sb P) (dp_sd P) tt tg (dp_repeat P) = disc_gen P tt tg.
+Proof. intros. destruct (gen_disc_leaf_eq P), (gen_disc_gen_eq P tt tg). auto. Qed.
+Print Assumptions gen_discrete_bd_loop_bodies_are_model.
+
+(* LOOP INVARIANT of the leaf loop inside one generation.  U = the leaves of the snapshot still to be
+   visited, all at depth D; V = every other leaf (visited survivors and the children born in this
+   generation), all at depth D + 1; identities unique and below `next`, every node has 0 or 2 children.
+   One pass of the body for the next leaf nd - birth, death with tree.prune_subtree(nd) +
+   suppress_unifurcations (possibly changing the seed node), death of the seed node with
+   repeat_until_success, or no event - re-establishes it for the rest of the snapshot and consumes at
+   least one draw.  (dinv is unfolded by discrete_bd_leaf_invariant_unfold.) *)
+Theorem discrete_bd_leaf_invariant_step : forall P D nd U V br dr t next g r c r',
+  dinv D (nd :: U) V t next ->
+  disc_leaf P (br, dr, t, next, g) nd r = Done c r' ->
+  exists br' dr' t' next' g' V', c = CNext (br', dr', t', next', g') /\ dinv D U V' t' next' /\ left_ r' < left_ r.
+Proof. exact disc_leaf_inv. Qed.
+Print Assumptions discrete_bd_leaf_invariant_step.
+
+Theorem discrete_bd_leaf_invariant_unfold : forall D U V t next,
+  dinv D U V t next <->
+  (NoDup (ids t) /\ (forall y, In y (ids t) -> y < next) /\
+   (forall s, In s (subtrees t) -> length (b_kids s) = 0 \/ length (b_kids s) = 2) /\
+   NoDup U /\ (forall y, In y (leaf_ids t) <-> In y U \/ In y V) /\ (forall y, In y U -> ~ In y V) /\
+   eqd U D t /\ eqd V (D + 1) t).
+Proof. exact dinv_unfold_proved. Qed.
+Print Assumptions discrete_bd_leaf_invariant_unfold.
+
+(* the invariant is satisfiable: the seed node alone, before the first generation *)
+Example discrete_bd_leaf_invariant_initial : dinv 0 [0] [] (bleaf 0 0) 1.
+Proof. apply (ginv_dinv (bleaf 0 0) 1 0%Q ginv_init). constructor. intros _. reflexivity. Qed.
+
+(* LOOP INVARIANT of the generation loop: between generations the tree has unique identities, is
+   binary, all its leaves are equidistant from the root and leaf_nodes is its leaf list; a pass that
+   continues re-establishes this and consumes at least one draw; the loop is left exactly when its
+   test fails, with the state unchanged *)
+Theorem discrete_bd_generation_invariant : forall P tt tg s r c r',
+  gstate s -> disc_gen P tt tg s r = Done c r' ->
+  match c with
+  | CNext s' => gstate s' /\ left_ r' < left_ r
+  | CBreak s' => s' = s /\ r' = r /\ (let '(_, _, _, _, gens, leaves) := s in disc_test tt tg leaves gens = false)
+  | CReturn e => False
+  end.
+Proof. exact disc_gen_inv. Qed.
+Print Assumptions discrete_bd_generation_invariant.
+
+(* PARTIAL CORRECTNESS over every draw script, every option setting the translator covers: the
+   returned tree is binary, well formed, all tips equidistant (exact arithmetic), every leaf carries
+   a taxon of the final namespace, the taxa are distinct, the namespace is only extended, and under
+   the tip-count rule alone (no max_time) it has AT LEAST the target number of tips.
+   Full statement of the property would say `= N`: false, see discrete_bd_exact_tip_count_refuted. *)
+Theorem gen_discrete_bd_result_spec_partial : forall P ons script t ns' r,
+  gen_disc P ons (script, []) = Done (t, ns') r ->
+  (forall s, In s (subtrees t) -> length (b_kids s) = 0 \/ length (b_kids s) = 2) /\
+  NoDup (ids t) /\
+  (exists D, forall x q, In (x, q) (depths t) -> q == D)%Q /\
+  (forall x, In x (leaf_taxa t) -> exists i, x = Some i /\ i < length ns') /\
+  NoDup (leaf_taxa t) /\
+  (exists extra, ns' = match ons with Some ns => ns | None => [] end ++ extra) /\
+  (dp_maxt P = None -> forall N, disc_target P ons = Some N -> N <= length (leaf_ids t)).
+Proof. exact gen_disc_spec. Qed.
+Print Assumptions gen_discrete_bd_result_spec_partial.
+
+Theorem discrete_bd_exact_tip_count_refuted :
+  exists P script t ns' r N, dp_maxt P = None /\ disc_target P None = Some N /\ (dp_d P < dp_b P)%Q /\
+    disc_sim P None script = Done (t, ns') r /\ length (leaf_ids t) <> N.
+Proof. exact disc_exact_tip_count_refuted_proved. Qed.
+Print Assumptions discrete_bd_exact_tip_count_refuted.
+
+(* grown to len(namespace) = 3 tips, the tree overshoots to 4 and Tree.randomly_assign_taxa raises
+   AttributeError: an admissible call that returns no tree *)
+Theorem discrete_bd_short_namespace_raises :
+  exists P ns script, dp_maxt P = None /\ disc_target P (Some ns) = Some (length ns) /\ (dp_d P < dp_b P)%Q /\
+    disc_sim P (Some ns) script = PyErr PyPrims.AttrErr.
+Proof. exact disc_short_namespace_raises_proved. Qed.
+Print Assumptions discrete_bd_short_namespace_raises.
+
+(* TOTAL EXTINCTION (the seed node is the only lineage and its draw falls in the death window):
+   repeat_until_success=False raises TreeSimTotalExtinctionException; repeat_until_success=True does
+   NOT restart the tree: only num_gens is reset to 0, the seed node keeps its lengthened edge *)
+Theorem discrete_bd_total_extinction : forall P br dr t next g u rest calls,
+  b_has br (b_id t) = true -> b_has dr (b_id t) = true ->
+  Qltb u (b_rate br (b_id t)) = false ->
+  Qltb (b_rate br (b_id t)) u && Qltb u (b_rate br (b_id t) + b_rate dr (b_id t))%Q = true ->
+  disc_leaf P (br, dr, t, next, g) (b_id t) (DUnit u :: rest, calls) =
+  if dp_repeat P
+  then Done (CNext (br, dr, b_upd_len t (b_id t) (fun l_ => (l_ + 1)%Q), next, 0)) (rest, CUnit :: calls)
+  else PyErr PyPrims.OtherErr.
+Proof. exact disc_total_extinction. Qed.
+Print Assumptions discrete_bd_total_extinction.
+
+(* the model's loop bounds (script length + 2 per while loop: every continuing pass consumes a draw) suffice *)
+Theorem gen_discrete_bd_fuel_suffices : forall P ons script, gen_disc P ons (script, []) <> NoFuel.
+Proof. exact gen_disc_fuel. Qed.
+Print Assumptions gen_discrete_bd_fuel_suffices.
